@@ -931,7 +931,7 @@ def clone_corpus():
     governed by the copy's own rules (wildcard validates, strict refuses)."""
     I, S = ["Typed", "VInt", 7], ["Typed", "VStr", 102]
     cs = []
-    for root in (0, 1, 2):
+    for root in (0, 1):
         for how in ("copy", "pickle"):
             cs.append({"classes": [{"decls": [["x", I]], "bases": [root]}], "cls": 3, "clone": True, "kind": "clone-corpus",
                        "ops": [["Set", "x", 1], ["Clone", how], ["Get", "x", "B"], ["Add", "lab", S], ["Clone", how],
@@ -1175,7 +1175,10 @@ def run(ctx):
         if ctx.replay:
             ccases = cases
         else:
-            ccases = clone_corpus() + [clone_history(rnd.choice(pool), rnd, ctx, maxlen)
+            # not under HasPrivateTraits: its `__` wildcard is declared transient, so private names are not part of
+            # the state — metadata the model's policies do not carry
+            cpool = [h for h in pool if all(b != 2 for cd in h["classes"] for b in cd["bases"])]
+            ccases = clone_corpus() + [clone_history(rnd.choice(cpool), rnd, ctx, maxlen)
                                        for _ in range(200 if ctx.tier == "quick" else 3000)]
             for c in ccases:
                 ctx.count("case:" + c["kind"])
